@@ -109,6 +109,14 @@ for nm, pat, defs in [("release", r"void release\(std::ptrdiff_t update = 1\)", 
     UNITS.append(Unit("public." + nm, "public.c", defines=[defs], enforce=nm,
                       lifts={"body": Lift(HPP, pat, rules=PUB_RULES)},
                       funcs=[HPP + ": pika::counting_semaphore<>::" + nm], min_obligations=5))
+UNITS.append(Unit("public.try_acquire_for", "public.c", defines=["U_TRY_ACQUIRE_FOR"], enforce="try_acquire_for",
+                  lifts={"body": Lift(HPP, r"bool try_acquire_for\(pika::chrono::steady_duration const& rel_time\)", rules=[
+                      Sub(r"\b(\w+)\.from_now\(\)", r"dur_from_now(\1)", None),
+                      Sub(r"\b(\w+)\.value\(\)", r"dur_value(\1)", None),
+                      Sub(r"(?:pika|std)::chrono::steady_clock::duration::zero\(\)", "dur_zero()", None),
+                      Sub(r"(?:pika|std)::chrono::steady_clock::now\(\)", "clock_now()", None),
+                      Call(r"(?<![\w.>:])try_acquire_until(?!\s*\(\s*self\b)", "try_acquire_until(self, {0})", None)])},
+                  funcs=[HPP + ": pika::counting_semaphore<>::try_acquire_for"], min_obligations=5))
 
 META = {
     "trusted_base": [
